@@ -37,6 +37,36 @@ Proof.
   apply (fsub_diag L (fun i0 => mgetR B i0 j) nn HL nn); lia.
 Qed.
 
+(* two states whose components are tabulations are equal as soon as their entries are *)
+Lemma kstate_eq_tab : forall N (s1 s2 : kstate Rops) f1 f2 g1 g2,
+    mean s1 = vtab Rops N f1 -> mean s2 = vtab Rops N f2 ->
+    cov s1 = mtab Rops N N g1 -> cov s2 = mtab Rops N N g2 ->
+    (forall i, (i < N)%nat -> vgetR (mean s1) i = vgetR (mean s2) i) ->
+    (forall i j, (i < N)%nat -> (j < N)%nat -> mgetR (cov s1) i j = mgetR (cov s2) i j) ->
+    s1 = s2.
+Proof.
+  intros N [m1 c1] [m2 c2] f1 f2 g1 g2 Hm1 Hm2 Hc1 Hc2 Hm Hc. cbn [mean cov] in *. subst.
+  f_equal.
+  - apply vtab_ext. intros i Hi. specialize (Hm i Hi). rewrite !vget_vtab in Hm by assumption. exact Hm.
+  - apply mtab_ext. intros i j Hi Hj. specialize (Hc i j Hi Hj). rewrite !mget_mtab in Hc by assumption. exact Hc.
+Qed.
+
+(* (A + A^T) * 0.5: always symmetric; the identity on symmetric matrices *)
+Lemma msym_entry : forall k (A : Rmat) i j, (i < k)%nat -> (j < k)%nat ->
+    mgetR (msym Rops k A) i j = (mgetR A i j + mgetR A j i) * / 2.
+Proof.
+  intros. unfold msym. rewrite mget_mtab by assumption. simplR. f_equal. unfold Q2R. cbn. lra.
+Qed.
+
+Lemma msym_symmetric : forall k (A : Rmat) i j, (i < k)%nat -> (j < k)%nat ->
+    mgetR (msym Rops k A) i j = mgetR (msym Rops k A) j i.
+Proof. intros. rewrite !msym_entry by assumption. lra. Qed.
+
+Lemma msym_id_on_symmetric : forall k (A : Rmat),
+    (forall i j, (i < k)%nat -> (j < k)%nat -> mgetR A i j = mgetR A j i) ->
+    forall i j, (i < k)%nat -> (j < k)%nat -> mgetR (msym Rops k A) i j = mgetR A i j.
+Proof. intros k A H i j Hi Hj. rewrite msym_entry by assumption. rewrite (H j i) by assumption. lra. Qed.
+
 Section Update.
   Variable F : kfilter Rops.
   Local Notation n := (kdim Rops F).
@@ -56,8 +86,8 @@ Section Update.
       g_update Rops F st z =
       {| mean := vadd Rops N (mean st)
                    (vtab Rops N (fun j => Rsum n (fun i => vgetR (vsub Rops n z (pmean st)) i * mgetR (gainM st) i j)));
-         cov := msub Rops N N (cov st)
-                   (mmul Rops N n N (mmul Rops N n n (mtrans Rops n N (gainM st)) (Sm st)) (gainM st)) |}.
+         cov := msym Rops N (msub Rops N N (cov st)
+                   (mmul Rops N n N (mmul Rops N n n (mtrans Rops n N (gainM st)) (Sm st)) (gainM st))) |}.
   Proof.
     intros st z. unfold g_update, gainM, Sm, pmean.
     destruct (g_project Rops F (mean st) (cov st)) as [pm pc]. reflexivity.
@@ -109,10 +139,16 @@ Section Update.
     rewrite gain_entry by assumption. reflexivity.
   Qed.
 
-  Lemma code_update_cov : forall st z, Sdiag st -> forall i j, (i < N)%nat -> (j < N)%nat ->
-      mgetR (cov (g_update Rops F st z)) i j = upd_cov st i j.
+  Lemma Q2R_half : Q2R (1 # 2) = / 2.
+  Proof. unfold Q2R. cbn. lra. Qed.
+
+  (* the un-symmetrised difference P - K'^T S K' *)
+  Lemma code_update_cov_raw : forall st, Sdiag st -> forall i j, (i < N)%nat -> (j < N)%nat ->
+      mgetR (msub Rops N N (cov st)
+                  (mmul Rops N n N (mmul Rops N n n (mtrans Rops n N (gainM st)) (Sm st)) (gainM st))) i j
+      = upd_cov st i j.
   Proof.
-    intros st z HS i j Hi Hj. rewrite g_update_unfold. cbn [cov]. unfold msub.
+    intros st HS i j Hi Hj. unfold msub.
     rewrite mget_mtab by assumption. unfold upd_cov. simplR. f_equal.
     unfold mmul at 1. rewrite mget_mtab by assumption.
     apply Rsum_ext. intros l Hl. rewrite (gain_entry st HS l j) by assumption. simplR. f_equal.
@@ -120,6 +156,24 @@ Section Update.
     rewrite (Rsum_single n _ l); try assumption.
     - unfold mtrans. rewrite mget_mtab by assumption. rewrite gain_entry by assumption. reflexivity.
     - intros k Hk Hne. rewrite (HS k l) by assumption. simplR. lra.
+  Qed.
+
+  Definition Psym (st : kstate Rops) : Prop :=
+    forall i j, (i < N)%nat -> (j < N)%nat -> mgetR (cov st) i j = mgetR (cov st) j i.
+
+  Lemma upd_cov_sym : forall st, Psym st -> forall i j, (i < N)%nat -> (j < N)%nat -> upd_cov st i j = upd_cov st j i.
+  Proof.
+    intros st HP i j Hi Hj. unfold upd_cov. rewrite (HP i j) by assumption. simplR. f_equal.
+    apply Rsum_ext. intros l Hl. simplR. lra.
+  Qed.
+
+  (* what the code stores: the symmetrised difference; on a symmetric P symmetrising changes nothing *)
+  Lemma code_update_cov : forall st z, Sdiag st -> Psym st -> forall i j, (i < N)%nat -> (j < N)%nat ->
+      mgetR (cov (g_update Rops F st z)) i j = upd_cov st i j.
+  Proof.
+    intros st z HS HP i j Hi Hj. rewrite g_update_unfold. cbn [cov]. unfold msym.
+    rewrite mget_mtab by assumption. rewrite !code_update_cov_raw by assumption.
+    rewrite (upd_cov_sym st HP j i) by assumption. simplR. rewrite Q2R_half. lra.
   Qed.
 
   (* ---- the textbook side ---- *)
@@ -189,25 +243,16 @@ Section Update.
   (* update_eq_textbook: when the innovation covariance is diagonal with non-zero diagonal, the code's update
      (triangular solve against the LOWER TRIANGLE of S) is the textbook update with ANY true (right) inverse of S. *)
   Theorem update_eq_textbook_diag : forall st z Si,
-      Sdiag st -> (forall i, (i < n)%nat -> mgetR (Sm st) i i <> 0) -> right_inverse (Sm st) Si ->
+      Sdiag st -> Psym st -> (forall i, (i < n)%nat -> mgetR (Sm st) i i <> 0) -> right_inverse (Sm st) Si ->
       g_update Rops F st z = tb_update Rops F Si st z.
   Proof.
-    intros st z Si HS Hnz Hinv.
-    assert (Hm : mean (g_update Rops F st z) = mean (tb_update Rops F Si st z)).
-    { rewrite g_update_unfold at 1. rewrite tb_update_unfold at 1. cbn zeta. cbn [mean]. unfold vadd.
-      apply vtab_ext. intros j Hj.
-      pose proof (code_update_mean st z HS j Hj) as H1.
-      pose proof (tb_update_mean st Si HS Hnz Hinv z j Hj) as H2.
-      rewrite g_update_unfold in H1. rewrite tb_update_unfold in H2. cbn zeta in H2. cbn [mean] in H1, H2.
-      unfold vadd in H1, H2. rewrite vget_vtab in H1, H2 by assumption. rewrite H1, H2. reflexivity. }
-    assert (Hc : cov (g_update Rops F st z) = cov (tb_update Rops F Si st z)).
-    { rewrite g_update_unfold at 1. rewrite tb_update_unfold at 1. cbn zeta. cbn [cov]. unfold msub.
-      apply mtab_ext. intros i j Hi Hj.
-      pose proof (code_update_cov st z HS i j Hi Hj) as H1.
-      pose proof (tb_update_cov st Si HS Hnz Hinv z i j Hi Hj) as H2.
-      rewrite g_update_unfold in H1. rewrite tb_update_unfold in H2. cbn zeta in H2. cbn [cov] in H1, H2.
-      unfold msub in H1, H2. rewrite mget_mtab in H1, H2 by assumption. rewrite H1, H2. reflexivity. }
-    destruct (g_update Rops F st z) as [m1 c1], (tb_update Rops F Si st z) as [m2 c2].
-    cbn [mean cov] in Hm, Hc. subst. reflexivity.
+    intros st z Si HS HP Hnz Hinv.
+    eapply (kstate_eq_tab N).
+    - rewrite g_update_unfold. reflexivity.
+    - rewrite tb_update_unfold. reflexivity.
+    - rewrite g_update_unfold. reflexivity.
+    - rewrite tb_update_unfold. reflexivity.
+    - intros j Hj. rewrite code_update_mean, (tb_update_mean st Si HS Hnz Hinv) by assumption. reflexivity.
+    - intros i j Hi Hj. rewrite code_update_cov, (tb_update_cov st Si HS Hnz Hinv) by assumption. reflexivity.
   Qed.
 End Update.
